@@ -277,3 +277,69 @@ kb1_wrapped_harness!(kb1_back_wrapped_d5, 1, 5);
 kb1_wrapped_harness!(kb1_back_wrapped_d6, 1, 6);
 kb1_wrapped_harness!(kb1_back_wrapped_d7, 1, 7);
 kb1_wrapped_harness!(kb1_back_wrapped_d8, 1, 8);
+
+// ---------------------------------------------------------------------------------------------------------------
+// the fast loop of inflateBack (entered with >= 15 input bytes and >= 260 bytes of window left) must give the same verdict
+// as the slow path: a distance that reaches before the start of the data is rejected, also when part of the output was
+// produced by the slow path before the fast loop is entered (input delivered as a 1-byte first slice + the rest).
+// The real fast loop does not finish here even on fully concrete input (1800 s), so it is replaced by a contract stub:
+// it asserts what the loop relies on from its caller — `window.have()` is the amount of history *before* the window buffer,
+// i.e. 0 until the buffer has been flushed once, the whole window afterwards — and then answers as the real loop does for
+// this input when the contract holds (`dist - written > have` => "invalid distance too far back").  In the s2 instance the
+// match is decoded by the slow path and the fast loop is not reached before the verdict.
+pub(crate) unsafe fn stub_fast_back_contract(state: &mut State) {
+    let have = state.window.have();
+    assert!(have == 0 || have == state.window.buffer_size(), "inflate_fast_back: window.have() counts history before the window buffer only");
+    state.mode = Mode::Bad;
+    state.error_message = Some("invalid distance too far back\0");
+}
+
+const FAST_TOOFAR: [u8; 44] = [
+    0x4b, 0x04, 0xc2, 0xa4, 0xe4, 0x94, 0xd4, 0xb4, 0xa4, 0xe4, 0x94, 0xd4, 0xb4, 0xa4, 0xe4, 0x94, 0xd4, 0xb4, 0xa4, 0xe4, 0x94, 0xd4,
+    0xb4, 0xa4, 0xe4, 0x94, 0xd4, 0xb4, 0xa4, 0xe4, 0x94, 0xd4, 0xb4, 0xa4, 0xe4, 0x94, 0xd4, 0xb4, 0xa4, 0xe4, 0x94, 0xd4, 0x34, 0x00,
+];
+
+fn back_fast_toofar_instance(first: u32) {
+    let input = FAST_TOOFAR; // final fixed block: literal 'a', length 3 at distance 2, 40 literals, end of block
+    let mut win = [0xEEu8; 512];
+    let mut state = State::new(&[], Writer::new(&mut []));
+    state.window = unsafe { Window::from_raw_parts(win.as_mut_ptr(), 512) };
+    state.wbits = 9;
+    state.flags.update(Flags::SANE, true);
+    let mut ind = InDesc { ptr: input.as_ptr(), len: 44, first, calls: 0 };
+    let mut outd = OutDesc { total: 0, calls: 0, last_ptr: 0, last_len: 0 };
+    let mut strm = typed_stream(unsafe { &mut *(&mut state as *mut State) });
+    let rc = unsafe {
+        back(
+            &mut strm,
+            in_cb,
+            &mut ind as *mut _ as *mut core::ffi::c_void,
+            out_cb,
+            &mut outd as *mut _ as *mut core::ffi::c_void,
+        )
+    };
+    core::mem::forget(strm);
+    core::mem::forget(state);
+    assert!(rc == ReturnCode::DataError, "a distance of 2 with one byte of data is invalid, whichever path decodes it");
+    assert!(outd.total == 1 && win[0] == b'a', "the literal before it is still delivered");
+    assert!(win[1] == 0xEE && win[511] == 0xEE);
+    kani::cover!(ind.calls == 2);
+}
+
+macro_rules! kb1_fast_toofar_harness {
+    ($name:ident, $first:expr) => {
+        #[kani::proof]
+        #[kani::unwind(5)]
+        #[kani::stub(crate::inflate::inftrees::inflate_table, stub_table_unreachable)]
+        #[kani::stub(core::fmt::write, stub_fmt_write)]
+        #[kani::stub(core::panicking::panic_nounwind, stub_pn)]
+        #[kani::stub(core::panicking::panic_nounwind_fmt, stub_pnf)]
+        #[kani::stub(crate::inflate::infback::inflate_fast_back, stub_fast_back_contract)]
+        #[kani::stub(<[u16]>::fill, stub_fill_unreachable)]
+        fn $name() {
+            back_fast_toofar_instance($first);
+        }
+    };
+}
+kb1_fast_toofar_harness!(kb1_back_fast_toofar_s1, 1);
+kb1_fast_toofar_harness!(kb1_back_fast_toofar_s2, 2);
